@@ -10,4 +10,6 @@ CONSTANTS
   Grace = 3000
   StaleFirstRead = TRUE
   InFlight = FALSE
+  StampSteps = {1}
+  CrossCodeOpen = TRUE
 INVARIANT Verdict
